@@ -131,3 +131,7 @@ C('C25', 'identity-encoding monitor on real generated modules (each declared nam
 C('C33', 'three-way differential: set_source()+compile() vs ffi.verify() with the CPython engine vs verify(force_generic_engine=True) on the same generated (cdef, C source) pairs',
   'Exploration: pairs from the C12 agreement generator; exposed name sets, constants, enumerators with ffi.string, struct size/alignment/offsets, function results and exception classes on in-range, out-of-range and wrongly typed argument tuples, global read/write observed by C getters/setters must be identical across the three builds.',
   'Only features verify() supports are generated; messages are not compared.')
+
+C('C34', 'identity and layout monitors over generated include() graphs (chains, diamonds, fans) in in-line, out-of-line ABI and compiled API mode, against a flat FFI that received the same cdefs without include(); icontract postcondition on Parser.include (model objects shared)',
+  'Exploration: 2-4 FFIs per graph where later cdefs are forced to use earlier typedefs/structs/unions/enums/constants; every included declaration must be the same ctype object through every FFI of the graph, layouts equal the flat FFI, constants/enumerators equal, and in API mode functions, globals and constants of included modules are reachable (and writable) through the including lib.',
+  'Sanitizer reports are observations. Six recorded findings: included enums are re-created in out-of-line/API modules, included #define constants are not usable in type strings there, anonymous aggregate names collide across included ABI modules (wrong layout / crash).')
